@@ -536,31 +536,45 @@ def r6(R):
     tl_name = hdr_names[1]
     bad_tests = {}
 
+    def _clears_status(e, truth):
+        """(e is `truth`) says the status is not the checkpoint flag"""
+        if isinstance(e, ast.Compare) and len(e.ops) == 1:
+            sides = [e.left, e.comparators[0]]
+            names = [x.id for x in sides if isinstance(x, ast.Name)]
+            consts = [x.value for x in sides if isinstance(x, ast.Constant)]
+            if status_name in names and consts and consts[0] in ('c', b'c'):
+                return (isinstance(e.ops[0], ast.Eq) and not truth) or (
+                    isinstance(e.ops[0], ast.NotEq) and truth)
+        return False
+
+    def _short_header(e, truth):
+        """(e is `truth`) says fewer bytes than a header were read"""
+        if isinstance(e, ast.Compare) and len(e.ops) == 1 and \
+                isinstance(e.left, ast.Call) and isinstance(
+                    e.left.func, ast.Name) and e.left.func.id == 'len' and \
+                dotted(e.comparators[0]) == ('TRANS_HDR_LEN',):
+            op = type(e.ops[0])
+            return (op in (ast.NotEq, ast.Lt) and truth) or (
+                op in (ast.Eq, ast.GtE) and not truth)
+        return False
+
     def bad_branch(node):
-        """label of the branch meaning 'this transaction is not complete'."""
+        """label of the branch meaning 'this transaction is not complete':
+        the one on which "status is not the checkpoint flag" is NOT
+        established while the other branch establishes it; or the one that
+        establishes a short header."""
         if node.kind != 'test':
             return None
-        t = node.ast
-        src = ast.unparse(t)
-        # status == 'c'  (possibly inside an `or`)
-        for c in ast.walk(t):
-            if isinstance(c, ast.Compare) and len(c.ops) == 1 and \
-                    isinstance(c.ops[0], ast.Eq):
-                sides = [c.left, c.comparators[0]]
-                names = [s.id for s in sides if isinstance(s, ast.Name)]
-                consts = [s.value for s in sides
-                          if isinstance(s, ast.Constant)]
-                if status_name in names and consts and consts[0] in ('c', b'c'):
-                    if isinstance(t, ast.BoolOp) and isinstance(t.op, ast.Or) \
-                            or t is c:
-                        return ('T', 'checkpoint')
-            if isinstance(c, ast.Compare) and len(c.ops) == 1 and \
-                    isinstance(c.ops[0], (ast.NotEq, ast.Lt)) and \
-                    isinstance(c.left, ast.Call) and \
-                    isinstance(c.left.func, ast.Name) and \
-                    c.left.func.id == 'len' and \
-                    dotted(c.comparators[0]) == ('TRANS_HDR_LEN',) and t is c:
-                return ('T', 'short-header')
+        from ..flow import implied_atoms
+        clears = {lab: any(_clears_status(e, t)
+                           for e, t in implied_atoms(node.ast, lab))
+                  for lab in ('T', 'F')}
+        if clears['T'] != clears['F']:
+            return ('F' if clears['T'] else 'T', 'checkpoint')
+        for lab in ('T', 'F'):
+            if any(_short_header(e, t)
+                   for e, t in implied_atoms(node.ast, lab)):
+                return (lab, 'short-header')
         return None
 
     def is_trunc(F, node):
